@@ -49,6 +49,7 @@ def show_pat(t):
 
 def op_line(op):
     if op[0] == 'ematch': return 'ematch ' + show_pat(op[1])
+    if op[0] == 'extract': return 'extract %s %s' % (op[2], show_term(op[1]))
     if op[0] == 'rewrite': return 'rewrite ' + ' ; '.join('%s | %s | %s' % (r[1], show_pat(r[2]), show_pat(r[3])) for r in op[1])
     return op[0] + ' ' + ' '.join(show_term(x) if isinstance(x, (tuple, list)) else str(x) for x in op[1:])
 
@@ -67,7 +68,7 @@ def run_cases(text, profile='release', timeout=600):
         if 'case' in r: out[r['case']] = r
     return out
 
-_CMP_KEYS = ('eq', 'live', 'nodes', 'progress', 'classes', 'union_ret', 'readd', 'probe', 'ematch', 'rewrite_ret')
+_CMP_KEYS = ('eq', 'live', 'nodes', 'progress', 'classes', 'union_ret', 'readd', 'probe', 'ematch', 'rewrite_ret', 'extract')
 def _norm_step(s):
     """class ids are compared up to renaming (which id survives a merge may depend on the hash iteration order of the worklist,
     which the native build and the model need not share): ids -> index of the first handle in that class"""
@@ -87,6 +88,7 @@ def _norm_step(s):
         d['consistency'] = sorted(set(x[0] for x in chk.get('consistency', [])))
     if 'readd' in d and d['readd'] is not None:
         d['readd'] = {k: v for k, v in d['readd'].items() if k != 'term'}
+    if d.get('extract'): d['extract'] = {k: v for k, v in d['extract'].items() if k != 'term'}      # ties between equally cheap terms may be broken differently
     if d.get('ematch'):
         def dh(h): return None if h is None else {'vals': h['vals']}
         d['ematch'] = {'unchanged': d['ematch']['unchanged'], 'matches': sorted(({'bound': m['bound'], 'found': m['found'], 'inst': dh(m['inst']), 'binds': {k: dh(v) for k, v in m['binds'].items()}} for m in d['ematch']['matches']), key=lambda x: json.dumps(x, sort_keys=True))}
